@@ -341,6 +341,27 @@ func (v *fnVC) applyCall(in ssa.Instruction, ci calleeInfo, args []*T, st *State
 		}
 		e.assume(tImp(R, mk(sapp("and", sapp(">=", ref, old.next().S), sapp("<", ref, st.next().S)), sBool)))
 	}
+	// `always` clauses of the function under proof: a two-state invariant (entry state vs
+	// the state right after this call) - every intermediate state a crash or a concurrent
+	// observer could see between two calls satisfies it.
+	if v.ct != nil && len(v.ct.Steps) > 0 && in != nil {
+		// `step` clauses: what each single call may do (state just before it vs just after
+		// it) - the guarantee half of a rely/guarantee argument about concurrent callers.
+		xs := v.exFor(st, old, nil)
+		xs.resolve = v.resolver(in.Block(), st, nil)
+		for k, c := range v.ct.Steps {
+			g := xs.Bool(c.Expr)
+			v.oblige("step", fmt.Sprintf("step%s@%s#%d", clauseTag(c, k), lastSeg(ci.display), n), v.propsOf(c), c.Expr, v.pos(in.Pos()), R, g, st)
+		}
+	}
+	if v.ct != nil && len(v.ct.Always) > 0 && in != nil {
+		xa := v.exFor(st, v.entry, nil)
+		xa.resolve = v.resolver(in.Block(), st, nil)
+		for k, c := range v.ct.Always {
+			g := xa.Bool(c.Expr)
+			v.oblige("always", fmt.Sprintf("always%s@after:%s#%d", clauseTag(c, k), lastSeg(ci.display), n), v.propsOf(c), c.Expr, v.pos(in.Pos()), R, g, st)
+		}
+	}
 	return pack()
 }
 
